@@ -46,7 +46,9 @@ def encode_any(I, v):
         for x in reversed(v):
             t = Val.cons(encode_any(I, x), t)
         return t
-    raise OutsideSubset(f"value {v!r} cannot be a key of a symbolic map")
+    from .lazydict import enc_key
+
+    return enc_key(I, v)
 
 
 def model_any(model, v):
